@@ -103,7 +103,7 @@ def work(case):
             add('remote-differs-from-direct', 'final outcome of the remotely and the directly controlled twin',
                 {k: (a[k], b.get(k)) for k in a if a[k] != b.get(k)})
         for mid, (mk, wire) in sorted(r['msgs'].items()):
-            if wire in CONTROL:
+            if wire in CONTROL and mid not in r['after_ids']:
                 if mid not in t['returns']:
                     add('message-not-handled', 'a routed control message is dispatched to the corresponding call',
                         dict(id=mid, message=f'{mk} {wire}'))
@@ -136,24 +136,26 @@ def work(case):
     else:
         r0 = ci.run_remote(prog, sched, None)
         idx, cls = fail
-        if cls in tol:
-            bad = None
-            if r['ctor_error'] or r['hookfail_at'] is not None:
-                bad = dict(what='the tolerated failure propagated', ctor_error=r['ctor_error'])
-            elif len(r['events']) != len(r0['events']):
-                bad = dict(what='different number of events', with_failure=len(r['events']), without=len(r0['events']))
-            else:
-                for i, (e, e0) in enumerate(zip(r['events'], r0['events'])):
-                    if e['kind'] != e0['kind'] or e.get('op') != e0.get('op') or _strip(e['obs']) != _strip(e0['obs']):
-                        a, b = _strip(e['obs']), _strip(e0['obs'])
-                        bad = dict(what='observations differ', event=i, op=e.get('op'), op_without=e0.get('op'),
-                                   diff={k: (a[k], b.get(k)) for k in a if a[k] != b.get(k)})
-                        break
-                if bad is None and r['reply_values'] != r0['reply_values']:
-                    bad = dict(what='replies differ', with_failure=r['reply_values'], without=r0['reply_values'])
-            if bad is not None:
-                add('tolerated-failure-disturbs', 'a broadcast failure of the tolerated kinds never disturbs the process',
-                    dict(bad, kind=cls, index=idx))
+        # does the run with the failure look like the failure-free run (apart from the broadcast log)?
+        differ = None
+        if r['ctor_error']:
+            differ = dict(what='the constructor raised', error=r['ctor_error'])
+        elif len(r['events']) != len(r0['events']):
+            differ = dict(what='different number of events', with_failure=len(r['events']), without=len(r0['events']))
+        else:
+            for i, (e, e0) in enumerate(zip(r['events'], r0['events'])):
+                if e['kind'] != e0['kind'] or e.get('op') != e0.get('op') or _strip(e['obs']) != _strip(e0['obs']):
+                    a, b = _strip(e['obs']), _strip(e0['obs'])
+                    differ = dict(what='observations differ', event=i, op=e.get('op'), op_without=e0.get('op'),
+                                  diff={k: (a[k], b.get(k)) for k in a if a[k] != b.get(k)})
+                    break
+            if differ is None and r['reply_values'] != r0['reply_values']:
+                differ = dict(what='replies differ', with_failure=r['reply_values'], without=r0['reply_values'])
+        if cls in ci.property_kinds():
+            if r['escaped'] or differ is not None:
+                add('tolerated-failure-disturbs', 'a broadcast failure of the tolerated kinds (closed connection, invalid channel, '
+                    'timeout) never disturbs the process',
+                    dict(differ or {}, kind=cls, index=idx, escaped_on_entered=r['escaped']))
             else:
                 want = [tuple(b) for b in r0['final']['broadcasts']]
                 if r['injected'] is not None:
@@ -163,15 +165,12 @@ def work(case):
                     add('broadcast-log', 'with a tolerated failure only the failed announcement is missing',
                         dict(broadcasts=got, expected=want, index=idx))
                 failures.extend(dict(f, case=_case_dict(case)) for f in check_broadcasts(ci, r, 'remote', r['injected']))
-        else:
-            if r['injected'] is not None and not r['ctor_error']:
-                k = len(r['events']) - 1          # the run stops at the op during which the exception was raised
-                same = k < len(r0['events']) and _strip(r['events'][k]['obs']) == _strip(r0['events'][k]['obs'])
-                if same:
-                    add('non-tolerated-swallowed', 'only closed connection, invalid channel and timeout are tolerated: any other '
-                        'exception of broadcast_send surfaces (the transition fails) instead of being absorbed silently',
-                        dict(index=idx, op=r['events'][k].get('op')))
-            facts['hookfail'] = 1 if r['injected'] is not None else 0
+        elif cls not in tol:
+            if r['injected'] is not None and not r['escaped'] and differ is None:
+                add('non-tolerated-swallowed', 'only closed connection, invalid channel and timeout are tolerated: any other '
+                    'exception of broadcast_send surfaces (the transition fails) instead of being absorbed silently',
+                    dict(index=idx, exception=cls))
+        facts['hookfail'] = 1 if r['escaped'] or r['ctor_error'] else 0
         streams.append((r0['ops'], r0['lines']))
     return dict(streams=streams, failures=failures, facts=facts)
 
@@ -252,7 +251,7 @@ def gen_cases(ctx):
                 sched.setdefault(rng.randrange(npos + 4), []).append(rng.choice(alphabet))
             cases.append(('twin', prog, sched, None))
     # broadcast failures: every tolerated class and one non-tolerated exception at every transition index
-    tol = sorted(ci.tolerated_classes())
+    tol = sorted(set(ci.tolerated_classes()) | set(ci.property_kinds()))   # what the source tolerates + what the property names
     for prog in PROGS_QUICK:
         npos = n_positions(prog) + (2 if prog in ci.WAITERS else 0)
         nt = n_transitions(prog) + 2
